@@ -93,8 +93,13 @@ class Runner:
         self.log.append(("out", f"s@{tick}:{remote}:{wire_str(p)}", tick))
         self.react(tick, remote, p)
 
+    LINK_LOCAL = {6: ("fe80::1", 5683, 0, 2), 7: ("fe80::1", 5683, 0, 3)}   # same address, two interfaces
+
     def remote_id(self, sockaddr):
-        for i in range(8):
+        for i, a in self.LINK_LOCAL.items():
+            if tuple(sockaddr) == a:
+                return i
+        for i in range(6):
             if netsim.peer(i)[:2] == tuple(sockaddr)[:2]:
                 return i
         if sockaddr[0].startswith("ff0"):
@@ -102,6 +107,8 @@ class Runner:
         raise AssertionError(f"unknown destination {sockaddr}")
 
     def sockaddr(self, remote):
+        if remote in self.LINK_LOCAL:
+            return self.LINK_LOCAL[remote]
         if remote == 9:
             return ("ff02::1", 5683, 0, 0)
         return netsim.peer(remote)
